@@ -7,18 +7,16 @@ CONSTANTS
   Kinds = {"simple", "drop", "distinct", "lookup1", "lookup2", "count", "limit", "both", "agg"}
   MaxStages = 2
   Ns = {0, 1, 2, 3, 4}
-  Fs = {1, 0, 2}
+  Fs = {1, 0, 2, 3}
   Ks = {99, 0, 1, 2}
   LimitL = 1
   AggA = 2
   BothDrain = "concurrent"
-  MaxWork = 4
+  MaxWork = 5
   Reduce = FALSE
   Survey = FALSE
-SPECIFICATION Spec
+INIT Init
+NEXT Next
 INVARIANT TypeOK
 INVARIANT Released
 INVARIANT RowsOK
-PROPERTY Termination
-PROPERTY CancelStops
-PROPERTY AllStop
